@@ -94,28 +94,28 @@ Spec == Init /\ [][Next]_vars
 Running == phase = "run" /\ status = "ok"
 
 ---------------------------------------------------------------------------
-ReflectionAtMostOne == Running => \A i \in 1..Len(ref) : RLe(CAbs2(ref[i]), One)
+ReflectionAtMostOne == Running => \A i \in 1..Len(ref) : LET m == CAbs2(ref[i]) IN IsOvf(m) \/ RLe(m, One)
 
-StepUpIsAr == Running => StepUpSeq(ref) = a
+StepUpIsAr == Running => CSeqEqOrOvf(StepUpSeq(ref), a)
 
 VarianceFormula ==
-    Running => rho = RMul(RMul(RFrac(1, N), Energy(x)),
-                          RProdSeq([i \in 1..Len(ref) |-> RSub(One, CAbs2(ref[i]))]))
+    Running => REqOrOvf(rho, RMul(RMul(RFrac(1, N), Energy(x)),
+                                  RProdSeq([i \in 1..Len(ref) |-> RSub(One, CAbs2(ref[i]))])))
 
-VarianceNonIncreasing == Running => RLe(rho, rhoprev)
+VarianceNonIncreasing == Running => (IsOvf(rho) \/ IsOvf(rhoprev) \/ RLe(rho, rhoprev))
 
 \* the in-place arrays hold the definitional errors of the current model
 ErrorsAreFilterOutputs ==
     Running => \A n \in Len(a)..(N - 1) :
-                  /\ ef[n + 1] = FwdErr(a, n)
-                  /\ eb[n + 1] = BwdErr(a, n)
+                  /\ CEqOrOvf(ef[n + 1], FwdErr(a, n))
+                  /\ CEqOrOvf(eb[n + 1], BwdErr(a, n))
 
 \* the denominator recursion equals the summed forward+backward energy of the next stage
 DenominatorIsEnergy ==
     (Running /\ Len(a) < N - 1) =>
-        RSub(RSub(RMul(temp, den), CAbs2(ef[Len(a) + 1])), CAbs2(eb[N]))
-          = RSumFn(LAMBDA n : RAdd(CAbs2(FwdErr(a, n)), CAbs2(BwdErr(a, n - 1))), Len(a) + 1, N - 1)
+        REqOrOvf(RSub(RSub(RMul(temp, den), CAbs2(ef[Len(a) + 1])), CAbs2(eb[N])),
+                 RSumFn(LAMBDA n : RAdd(CAbs2(FwdErr(a, n)), CAbs2(BwdErr(a, n - 1))), Len(a) + 1, N - 1))
 
 \* each k is the minimiser of the stage's forward+backward error energy
-StageOptimal == Running => CIsZero(optres)
+StageOptimal == Running => (CBad(optres) \/ CIsZero(optres))
 =============================================================================
